@@ -93,6 +93,11 @@ pub struct C04Plan {
     /// read by the real `write_packet_with_ack` before the packets are read.
     #[serde(default)]
     pub ack_first: Option<u32>,
+    /// Transient read errors (0 = EINTR, 1 = EAGAIN, 2 = ETIMEDOUT) when the read cursor stands at
+    /// this offset of the stream: the read of that packet may fail - or be retried correctly -,
+    /// a wrong packet must never come out.
+    #[serde(default)]
+    pub read_errs: Vec<(u32, u8)>,
 }
 
 /// Terminal that has everything queued from the start.
@@ -254,6 +259,24 @@ fn run_plan(plan: &C04Plan, want_trace: bool) -> RunOut {
         stalls: plan.stalls.clone(),
     };
     let (conn, h) = sim_conn(0, plan.sched.clone(), Box::new(Sink), log.clone());
+    h.set_read_errors(
+        plan.read_errs
+            .iter()
+            .map(|(off, k)| {
+                (
+                    *off as u64,
+                    match k {
+                        0 => std::io::ErrorKind::Interrupted,
+                        1 => std::io::ErrorKind::WouldBlock,
+                        _ => std::io::ErrorKind::TimedOut,
+                    },
+                )
+            })
+            .collect(),
+    );
+    if !plan.read_errs.is_empty() {
+        out.stats.hit("fault.transient_read_error_planned");
+    }
     let mut pt = PacketTransport { source: conn };
     #[derive(Default)]
     struct Got {
@@ -319,7 +342,8 @@ fn run_plan(plan: &C04Plan, want_trace: bool) -> RunOut {
     let got = got.lock().unwrap();
     // (see below: a reader may give a packet up during a long stall; what it does with the rest of
     // the stream afterwards - mis-framed by then - is not judged, a dead end included)
-    let early_long_stall: Option<u64> = plan.stalls.iter().filter(|(_, ms)| *ms >= 1000).map(|(off, _)| *off as u64).min();
+    // (a transient read error is judged like a long stall at its offset: the packet may be given up there)
+    let early_long_stall: Option<u64> = plan.stalls.iter().filter(|(_, ms)| *ms >= 1000).map(|(off, _)| *off as u64).chain(plan.read_errs.iter().map(|(off, _)| *off as u64)).min();
     let gave_up_early = match early_long_stall {
         Some(s) => {
             got.frames.iter().enumerate().any(|(i, f)| f.0.is_err() && ends.get(i).map(|e| *e > s).unwrap_or(true))
@@ -344,7 +368,7 @@ fn run_plan(plan: &C04Plan, want_trace: bool) -> RunOut {
         // whatever write_packet_with_ack makes of an acknowledgement that carries data, it must have
         // consumed exactly that packet
         if let Some((ok, cur)) = *ack_seen.lock().unwrap() {
-            let stalled_inside = plan.stalls.iter().any(|(off, ms)| *ms >= 1000 && (*off as u64) < ack_len);
+            let stalled_inside = plan.stalls.iter().any(|(off, ms)| *ms >= 1000 && (*off as u64) < ack_len) || plan.read_errs.iter().any(|(off, _)| (*off as u64) < ack_len);
             if cur != ack_len && !(stalled_inside && !ok) {
                 out.fail(
                     if cur > ack_len { "read_ahead" } else { "under_read" },
@@ -359,7 +383,7 @@ fn run_plan(plan: &C04Plan, want_trace: bool) -> RunOut {
     // A reader that gives a packet up after a second or more of silence breaks nothing in this
     // property: from the first long stall on, an error (and whatever follows it) is acceptable -
     // a wrong packet never is.
-    let long_stall: Option<u64> = plan.stalls.iter().filter(|(_, ms)| *ms >= 1000).map(|(off, _)| *off as u64).min();
+    let long_stall: Option<u64> = early_long_stall;
     let mut gave_up = false;
     if gave_up_early && plan.cut.is_some() {
         // with a cut as well, the stalled packet may lie beyond the complete ones
@@ -498,7 +522,7 @@ fn finish(mut out: RunOut, log: &SharedLog, plan: &C04Plan, want_trace: bool) ->
         }
     }
     out.shape = sh.finish();
-    out.nontrivial = !plan.sched.is_trivial() || plan.cut.is_some() || plan.frames.len() > 1 || !plan.stalls.is_empty();
+    out.nontrivial = !plan.sched.is_trivial() || plan.cut.is_some() || plan.frames.len() > 1 || !plan.stalls.is_empty() || !plan.read_errs.is_empty();
     if !plan.stalls.is_empty() {
         out.stats.hit("fault.peer_stall");
     }
@@ -609,6 +633,7 @@ impl Check for C04 {
                 label: "header".into(),
                 stalls: vec![],
                 ack_first: None,
+                read_errs: vec![],
             }
         }));
         // (b) every partition of short streams (covers 3- and 5-byte headers split everywhere)
@@ -628,6 +653,7 @@ impl Check for C04 {
                 label: "partitions".into(),
                 stalls: vec![],
                 ack_first: None,
+                read_errs: vec![],
             }
         }));
         // stream A': a packet its parser refuses, then a good one: 5 + 4 + 5 = 14 bytes -> 2^13 partitions
@@ -646,6 +672,7 @@ impl Check for C04 {
                 label: "partitions_refused".into(),
                 stalls: vec![],
                 ack_first: None,
+                read_errs: vec![],
             }
         }));
         // stream B: extended header: 5 header bytes split everywhere, body 255 in one piece or bytewise
@@ -665,6 +692,7 @@ impl Check for C04 {
                 label: "partitions_ext".into(),
                 stalls: vec![],
                 ack_first: None,
+                read_errs: vec![],
             }
         }));
         // (c) end of stream at every byte position of a multi-frame stream
@@ -701,6 +729,7 @@ impl Check for C04 {
                     label: "eof".into(),
                     stalls: vec![],
                     ack_first: None,
+                    read_errs: vec![],
                 }
             }));
         }
@@ -733,6 +762,35 @@ impl Check for C04 {
                     label: "stall".into(),
                     stalls: vec![(off, ms)],
                     ack_first: None,
+                    read_errs: vec![],
+                }
+            }));
+        }
+        // (c3) a transient read error (EINTR / EAGAIN / ETIMEDOUT) at every byte position of the same stream
+        {
+            let frames = vec![
+                FrameSpec { class: 0x80, instr: 0x00, len: 0, fill: 0, via_writer: false },
+                FrameSpec { class: 0x04, instr: 0xff, len: 2, fill: 0x17, via_writer: false },
+                FrameSpec { class: 0x06, instr: 0xd1, len: 256, fill: 0x41, via_writer: true },
+                FrameSpec { class: 0x06, instr: 0x1e, len: 1, fill: 0x6c, via_writer: false },
+            ];
+            let total: u32 = frames.iter().map(|f| f.reference().len() as u32).sum::<u32>() + 5;
+            let mut offs: Vec<u32> = (0..=20).collect();
+            offs.extend([100, 200]);
+            offs.extend(total - 12..=total);
+            let n = offs.len() as u64 * 3 * 2;
+            fams.push(Family::new("transient_read_error_at_byte_positions", n, true, move |i, _| {
+                let off = offs[(i / 6) as usize];
+                C04Plan {
+                    frames: frames.clone(),
+                    sched: if i % 2 == 0 { Sched::whole() } else { Sched::one_byte() },
+                    wsched: Sched::whole(),
+                    cut: None,
+                    sentinel: sentinel(),
+                    label: "read_err".into(),
+                    stalls: vec![],
+                    ack_first: None,
+                    read_errs: vec![(off, ((i / 2) % 3) as u8)],
                 }
             }));
         }
@@ -769,6 +827,7 @@ impl Check for C04 {
                 label: "random".into(),
                 stalls,
                 ack_first: if rng.pct(10) { Some(*rng.pick(&[0u32, 1, 2, 3, 254, 255, 256, 1000])) } else { None },
+                read_errs: if rng.pct(12) { vec![(rng.below(total as u64 + 1) as u32, rng.below(3) as u8)] } else { vec![] },
             }
         }));
         fams
@@ -823,7 +882,7 @@ impl Check for C04 {
     }
 
     fn rule_text(&self) -> String {
-        "one run = k frames (real write_packet output of PrintLine/Ack for via_writer frames, reference framing otherwise) + sentinel, read back by the real read_packet::<RawFrame> over a SimConn; families: writer/reader header agreement per body length (thorough: all 0..65535; quick: 0..600, the top 16, boundary and PRNG lengths), all 2^11 partitions of a 12-byte three-packet stream, all 2^13 partitions of a stream whose first packet the parser refuses (it must be consumed completely and framing must go on), all partitions of an extended (5-byte) header, end of stream at every byte position of a five-packet stream (EOF and ECONNRESET), a stall of the peer (1 ms .. 1 h of virtual time) at every byte position of the headers and around the packet boundaries of a four-packet stream, PRNG streams x PRNG schedules x optional cut x optional stalls; distinct = hash of (frame lengths, cut position, first 64 read sizes); non-trivial = non-whole schedule, a cut, or more than one frame".into()
+        "one run = k frames (real write_packet output of PrintLine/Ack for via_writer frames, reference framing otherwise) + sentinel, read back by the real read_packet::<RawFrame> over a SimConn; families: writer/reader header agreement per body length (thorough: all 0..65535; quick: 0..600, the top 16, boundary and PRNG lengths), all 2^11 partitions of a 12-byte three-packet stream, all 2^13 partitions of a stream whose first packet the parser refuses (it must be consumed completely and framing must go on), all partitions of an extended (5-byte) header, end of stream at every byte position of a five-packet stream (EOF and ECONNRESET), a stall of the peer (1 ms .. 1 h of virtual time) at every byte position of the headers and around the packet boundaries of a four-packet stream, a transient read error (EINTR, EAGAIN, ETIMEDOUT) at every byte position (the packet may fail or be retried, a wrong packet never comes out), PRNG streams x PRNG schedules x optional cut x optional stalls x optional transient errors; distinct = hash of (frame lengths, cut position, first 64 read sizes); non-trivial = non-whole schedule, a cut, or more than one frame".into()
     }
     fn assumptions(&self) -> Vec<String> {
         vec![
